@@ -114,7 +114,7 @@ func (e *env) call(kind byte, policy int, d time.Duration, okName string, fn fun
 	case polBefore:
 		e.tl.rec(xtok)
 		cancel()
-		e.ft.add("ctx-before")
+		e.ft.add("cancel-before")
 	case polAfter:
 		tm = time.AfterFunc(d, func() {
 			e.tl.rec(xtok)
@@ -332,9 +332,11 @@ func (e *env) finish(quiet, grace time.Duration, shutdown func()) (toks []string
 		// census
 		dl := time.Now().Add(grace)
 		for {
+			// (runtime.NumGoroutine() <= baseN is not used as a shortcut: goroutines of the fake
+			// that end would hide as many leaked ones)
 			open := e.cc.nOpen()
 			ok := open == 0
-			if ok && runtime.NumGoroutine() > e.baseN {
+			if ok {
 				k, _ := kafkaGoroutines()
 				ok = k <= e.baseK
 			}
@@ -375,11 +377,11 @@ func (e *env) finish(quiet, grace time.Duration, shutdown func()) (toks []string
 // deriveTags adds the feature tags that are functions of the timeline.
 func deriveTags(toks []string, ft *feats) {
 	type cinfo struct {
-		kind      byte
-		begin     int
-		ret       int
-		res       string
-		afterD    bool
+		kind   byte
+		begin  int
+		ret    int
+		res    string
+		afterD bool
 	}
 	calls := map[string]*cinfo{}
 	var cpos []int
